@@ -70,7 +70,7 @@ Theorem C02_phase_length : forall s n, InvC s -> fs_ok (pa_fs (a_pa s)) ->
 Proof. exact phase_length_exact. Qed.
 
 (** ... which is never earlier than N = T*fs ticks (up to f32 rounding of the increment:
-    N(1 - 2^-21)), at least one tick, and later only by the counter resolution *)
+    N(1 - 2^-22)), at least one tick, and later only by the counter resolution *)
 Theorem C02_phase_duration : forall fs t, fs_ok fs -> fin_in t (R32 MIN_TIME) (R32 MAX_TIME) ->
   let N := R32 t * R32 fs in
   let n := IZR (ticks_for (inc_of fs t)) in
